@@ -36,6 +36,13 @@ func outDir(t *testing.T) string {
 	return d
 }
 
+func corpusDir() string {
+	if d := os.Getenv("VERIF_CORPUS"); d != "" {
+		return d
+	}
+	return "/verif/corpus"
+}
+
 func scale(quick, thor int) int {
 	if thorough() {
 		return thor
@@ -121,6 +128,31 @@ func (c *caseWriter) add(tag int, kind string, nontrivial bool, args []interface
 	if len(c.samp) < 6 || (c.n%997 == 0 && len(c.samp) < 12) {
 		if len(line) > 400 {
 			line = line[:400] + "..."
+		}
+		c.samp = append(c.samp, line)
+	}
+}
+
+// addMulti writes one case evaluated under several tags ("101+201"): outs[i] belongs to tag i.
+func (c *caseWriter) addMulti(tags string, kind string, nontrivial bool, args []interface{}, outs [][]interface{}) {
+	os := make([]string, len(outs))
+	for i, o := range outs {
+		os[i] = fmtLists(o)
+	}
+	line := fmt.Sprintf("%s|%s|%s", tags, fmtLists(args), strings.Join(os, "/"))
+	c.w.WriteString(line)
+	c.w.WriteByte('\n')
+	c.n++
+	c.hist[tags+":"+kind]++
+	if !c.dist[line] {
+		c.dist[line] = true
+		if nontrivial {
+			c.nontr++
+		}
+	}
+	if len(c.samp) < 3 {
+		if len(line) > 1500 {
+			line = line[:1500] + "..."
 		}
 		c.samp = append(c.samp, line)
 	}
